@@ -225,6 +225,18 @@ func (s *state) CheckBody(ctx context.Context, hdr textproto.Header, _ buffer.Bu
 	}
 	authName := s.msgMeta.Conn.AuthUser
 
+	// RFC 5322 allows exactly one From field. hdr.Get returns only the first
+	// one, authorizing it alone would let any other From field through.
+	if len(hdr.Values("From")) > 1 {
+		return s.c.errAction.Apply(module.CheckResult{
+			Reason: &exterrors.SMTPError{
+				Code:         550,
+				EnhancedCode: exterrors.EnhancedCode{5, 7, 0},
+				Message:      "Multiple From header fields are not allowed",
+				CheckName:    modName,
+			}})
+	}
+
 	fromHdr := hdr.Get("From")
 	if fromHdr == "" {
 		return s.c.errAction.Apply(module.CheckResult{
